@@ -1,0 +1,7 @@
+//go:build !verif
+
+package common
+
+// verifRewardsTrace is a no-op outside verification builds (see
+// rewards_verif.go).
+func verifRewardsTrace(string, []byte, uint64) {}
